@@ -165,6 +165,10 @@ def multiset_check(case):
 
     els = case["elements"]
     snapshot = list(els)
+    # an enumeration that is started and abandoned must not disturb later ones (after seeded change C18-5: memoised mutable counters)
+    pending, exc0 = call(lambda e: next(iter(unique_perms(e))), els)
+    if exc0 is not None:
+        return viol("unique_perms raised: " + exc_text(exc0), site="unique_perms:exception")
     got, exc = call(lambda e: list(unique_perms(e)), els)
     if exc is not None:
         return viol("unique_perms raised: " + exc_text(exc), site="unique_perms:exception")
@@ -177,6 +181,12 @@ def multiset_check(case):
     if set(got_t) != exp:
         return viol("set of rearrangements differs from the distinct permutations of the multiset", site="unique_perms:set",
                     observed=len(got_t), expected=len(exp))
+    # two interleaved enumerations of the same multiset (zip) must both be complete
+    if len(els) <= 5:
+        inter, exc = call(lambda e: [(a, b) for a, b in zip(unique_perms(e), unique_perms(e))], els)
+        if exc is not None or len(inter) != len(exp) or any(tuple(a) != tuple(b) for a, b in inter):
+            return viol("two interleaved enumerations of the same multiset disturb each other", site="unique_perms:interleaved",
+                        observed=None if exc is not None else len(inter), expected=len(exp))
     # second enumeration must give the same (the helper restores its counters)
     again, exc = call(lambda e: list(unique_perms(e)), els)
     if exc is not None or [tuple(int(x) for x in g) for g in again] != got_t:
@@ -247,3 +257,4 @@ CLAUSES = [
 # every toqito call of this property is repeated with column-major copies of its array arguments (engine.call, layout twin)
 for _c in CLAUSES:
     _c.layout_twin = True
+    _c.repeat_twin = True  # repeated calls agree; scribbling over a returned array must not affect later calls (engine.call)
